@@ -244,3 +244,88 @@ std::string match_groups(const std::vector<RecvFrame>& got, const std::vector<st
   return why.empty() ? "no consistent split" : why;
 }
 }
+
+#include <algorithm>
+namespace vp {
+std::string Belief::step(Hist& h, const std::vector<BOp>& ops, const std::vector<bool>& lazy, int* tried_out) {
+  int total = (int)h.bus.nclients();
+  for (auto& c : cands) c.pending.resize(total);
+  for (auto& op : ops) { h.log.push_back(op.desc); if (op.write) op.write(h.bus); }
+  if (!h.bus.pump()) return "bus main loop did not become idle (spin)";
+  std::vector<bool> lz(total, false); for (int j = 0; j < total && j < (int)lazy.size(); j++) lz[j] = lazy[j];
+  std::vector<std::vector<RecvFrame>> got(total);
+  for (int j = 0; j < total; j++) if (h.open(j) && !lz[j] && !(j < (int)h.model.conns.size() && h.model.conns[j].monitor)) got[j] = h.bus.drain(j);
+  std::vector<Cand> next; std::vector<std::string> seen;
+  std::string first_diff; int tried = 0;
+  for (auto& cand : cands) {
+    std::vector<size_t> perm(ops.size()); for (size_t i = 0; i < perm.size(); i++) perm[i] = i;
+    do {
+      bool valid = true;
+      for (size_t a = 0; a < perm.size() && valid; a++) for (size_t b = a + 1; b < perm.size(); b++)
+        if ((ops[perm[a]].c == ops[perm[b]].c || ops[perm[a]].c < 0 || ops[perm[b]].c < 0) && perm[a] > perm[b]) { valid = false; break; }
+      if (!valid) continue;
+      tried++;
+      Cand n; n.m = cand.m; n.pending.assign(total, {});
+      std::vector<std::vector<std::vector<Exp>>> groups(total);
+      for (size_t a = 0; a < perm.size(); a++) { Out o; ops[perm[a]].apply(n.m, o); for (auto& kv : o) if (kv.first >= 0 && kv.first < total) groups[kv.first].push_back(kv.second); }
+      bool all = true; std::string diff;
+      for (int j = 0; j < total && all; j++) {
+        if (!h.open(j)) continue;
+        if (j < (int)n.m.conns.size() && n.m.conns[j].monitor) continue;
+        std::vector<std::vector<Exp>> gj = cand.pending[j]; gj.insert(gj.end(), groups[j].begin(), groups[j].end());
+        if (lz[j]) { n.pending[j] = gj; continue; }
+        std::string d = match_groups(got[j], gj);
+        if (!d.empty()) { all = false; diff = "client" + std::to_string(j) + " (" + h.uniq(j) + "): " + d + "\n  got:\n" + show_frames(got[j]) + "  want (one serialisation):\n"; for (auto& g : gj) diff += show_exps(g); }
+        else if (h.bus.client(j).eof && n.m.conns[j].alive) { all = false; diff = "client" + std::to_string(j) + " was disconnected by the bus"; }
+      }
+      if (!all) { if (first_diff.empty()) first_diff = diff; continue; }
+      std::string fp = n.m.fingerprint(); for (int j = 0; j < total; j++) for (auto& g : n.pending[j]) { fp += "|" + std::to_string(j) + ":"; for (auto& e : g) fp += e.show(); }
+      if (std::find(seen.begin(), seen.end(), fp) == seen.end()) { seen.push_back(fp); if (next.size() < 64) next.push_back(n); else overflow = true; }
+    } while (std::next_permutation(perm.begin(), perm.end()));
+  }
+  for (int j = 0; j < total; j++) Bus::free_frames(got[j]);
+  if (tried_out) *tried_out = tried;
+  if (overflow) return "";
+  if (next.empty()) return "none of the " + std::to_string(tried) + " (state, serialisation) candidates explains what the clients received; first difference:\n" + first_diff;
+  cands = next;
+  h.model = cands[0].m;
+  return "";
+}
+
+std::string Belief::resume_all(Hist& h) {
+  int total = (int)h.bus.nclients();
+  std::vector<std::vector<RecvFrame>> got(total);
+  for (int j = 0; j < total; j++) if (h.open(j) && !(j < (int)h.model.conns.size() && h.model.conns[j].monitor)) got[j] = h.bus.drain(j);
+  std::vector<Cand> next; std::string first;
+  for (auto& cand : cands) {
+    bool all = true;
+    for (int j = 0; j < total && all; j++) if (h.open(j) && j < (int)cand.pending.size() && !(j < (int)cand.m.conns.size() && cand.m.conns[j].monitor)) {
+      std::string d = match_groups(got[j], cand.pending[j]);
+      if (!d.empty()) { all = false; if (first.empty()) first = "client" + std::to_string(j) + " (late reader): " + d + "\n  got:\n" + show_frames(got[j]); }
+    }
+    if (all) { Cand n = cand; n.pending.assign(total, {}); next.push_back(n); }
+  }
+  for (int j = 0; j < total; j++) Bus::free_frames(got[j]);
+  if (next.empty()) return first;
+  cands = next; h.model = cands[0].m;
+  return "";
+}
+
+std::string Belief::check_registry_any(Hist& h, const std::vector<std::string>& names) {
+  int total = (int)h.bus.nclients();
+  int obs = h.bus.connect_raw();
+  if (!h.bus.auth(obs) || h.bus.hello(obs).empty()) return "observer could not register";
+  Hist::all_uniques.insert(h.bus.client(obs).unique);
+  for (int j = 0; j < total; j++) if (h.open(j)) { auto fr = h.bus.drain(j); Bus::free_frames(fr); }
+  std::string first;
+  for (auto& cand : cands) {
+    BusModel m2 = cand.m; while ((int)m2.conns.size() < obs) { m2.add_conn(); m2.conns.back().alive = false; }
+    int mo = m2.add_conn(); m2.conns[mo].registered = true; m2.conns[mo].unique = h.bus.client(obs).unique;
+    std::string d = check_registry(h.bus, obs, m2, names);
+    for (int j = 0; j < total; j++) if (h.open(j)) { auto fr = h.bus.drain(j); Bus::free_frames(fr); }
+    if (d.empty()) { h.bus.close_client(obs); h.bus.pump(); return ""; }
+    if (first.empty()) first = d;
+  }
+  return first + "\n(" + std::to_string(cands.size()) + " candidate states, none agrees)";
+}
+}
